@@ -475,10 +475,18 @@ fn evaluate_round(chk: &mut Check, prop: &str, specs: &[AppSpec], out: &RoundOut
                     *chk.ev.known_hits.entry(format!("rejected:{sig}")).or_insert(0) += 1;
                     continue;
                 }
+                // one shrunk report per distinct verdict and run (a defect that rejects a whole class would otherwise
+                // be confirmed and shrunk dozens of times)
+                if chk.ev.labels.contains_key(&format!("reported:rejected:{sig}")) {
+                    chk.ev.label("further-rejections-with-a-reported-verdict");
+                    chk.ev.violations += 1;
+                    continue;
+                }
                 if !rejection_confirmed(spec, &sig) {
                     chk.ev.label("rejection-not-reproduced-alone(harness concurrency)");
                     continue;
                 }
+                chk.ev.label(&format!("reported:rejected:{sig}"));
                 let (small, v2) = shrink_verdict(spec, &sig);
                 let v = v2.as_ref().unwrap_or(v);
                 save_violation(chk, "abiding", &format!("rejected:{sig}"), &format!("a rule-abiding application was rejected ({} shrunk from {} to {} registrations):\n{}", sig, count_regs(spec), count_regs(&small), v.brief()), &small, json!({"k": k}));
